@@ -171,10 +171,21 @@ func runHistory(t *testing.T, r *vrep.Report, id int, cfg histCfg) {
 		}
 		r.Violate(sig, fmt.Sprintf("%s history %d (seed %d): the store panicked (%s) serving %s", cfg.backend, id, cfg.seed, p.Msg, p.Req), d)
 	}
+	// all-or-nothing: a transaction one of whose keys was rolled back is rolled back
+	partial := h.partialTxns(truth)
+	for _, what := range partial {
+		r.Violate("txn-partially-committed-after-lock-resolution:"+cfg.backend,
+			fmt.Sprintf("%s history %d (seed %d): %s", cfg.backend, id, cfg.seed, what),
+			map[string]any{"backend": cfg.backend, "history": id, "history_seed": cfg.seed, "driver_history": h.d.Descr()})
+	}
+	judged := withoutTxns(truth, partial)
 	for _, o := range h.obs {
-		h.judge(o, truth)
+		h.judge(o, judged)
 	}
 	h.judgeOutcomes(truth)
+	r.Count("async_gate:missing-lock-answer-first", int(h.gates.missingFirst.Load()))
+	r.Count("async_gate:present-lock-answers-first", int(h.gates.presentFirst.Load()))
+	r.Count("async_gate:other-answer-never-came", int(h.gates.timeouts.Load()))
 	// evidence
 	r.Count("histories", 1)
 	r.Count("histories:"+cfg.backend, 1)
@@ -336,6 +347,12 @@ func TestVerifC05(t *testing.T) {
 		r.Floor("multi_request:iter", 500)
 		r.Floor("multi_request:iterrev", 500)
 		r.Floor("txn_outcomes_checked", 1000)
+		r.Floor("txn_fate:"+fAsyncMissing.String(), 8)
+		r.Floor("txn_fate:"+fAsyncSecondaryRolledBack.String(), 8)
+		r.Floor("txn_fate:"+fAsyncPrimaryCommitted.String(), 5)
+		r.Floor("txn_fate:"+fAsyncLeft.String(), 5)
+		r.Floor("async_gate:missing-lock-answer-first", 3)
+		r.Floor("async_gate:present-lock-answers-first", 3)
 		r.Floor("early:histories", 80)
 		r.Floor("early:state:"+stateNames[stOrphanPess], 15)
 		r.Floor("early:state:"+stateNames[stPessOnly], 8)
